@@ -10,7 +10,15 @@ open GIV
 
 theorem quoteChar_eq : quoteChar = 39 := rfl
 theorem isBlank_iff (c : UInt8) : isBlank c = true ↔ (c = 32 ∨ c = 9 ∨ c = 13) := by
-  simp [isBlank, Gen.Script.blanks]
+  -- (insensitive to the order in which the source lists the three alternatives)
+  have hm : isBlank c = true ↔ c ∈ Gen.Script.blanks := by simp [isBlank]
+  rw [hm]
+  constructor
+  · intro h
+    simp only [Gen.Script.blanks, List.mem_cons, List.not_mem_nil, or_false] at h
+    rcases h with h | h | h <;> simp [h]
+  · intro h
+    rcases h with h | h | h <;> subst h <;> decide
 theorem isComment_iff (c : UInt8) : isComment c = true ↔ c = 35 := by
   simp [isComment, Gen.Script.commentChars]
 
